@@ -43,6 +43,42 @@ type Result struct {
 // IsWorker reports whether this process was started as a pool worker.
 func IsWorker() bool { return os.Getenv("SEMAVERIF_WORKER") != "" }
 
+// InNetNS reports whether this worker process runs in a network namespace of its own.
+func InNetNS() bool { return os.Getenv("SEMAVERIF_NETNS") == "1" }
+
+var netnsProbe struct {
+	once sync.Once
+	ok   bool
+}
+
+// netnsAvailable: can this process create network namespaces?
+func netnsAvailable() bool {
+	netnsProbe.once.Do(func() {
+		cmd := exec.Command("true")
+		cmd.SysProcAttr = &syscall.SysProcAttr{Cloneflags: syscall.CLONE_NEWNET}
+		netnsProbe.ok = cmd.Run() == nil
+	})
+	return netnsProbe.ok
+}
+
+// loopbackUp brings the loopback interface of a fresh network namespace up (ioctl SIOCSIFFLAGS).
+func loopbackUp() {
+	fd, err := syscall.Socket(syscall.AF_INET, syscall.SOCK_DGRAM, 0)
+	if err != nil {
+		return
+	}
+	defer syscall.Close(fd)
+	var ifr [40]byte // struct ifreq: name[16] + union
+	copy(ifr[:], "lo")
+	if _, _, e := syscall.Syscall(syscall.SYS_IOCTL, uintptr(fd), syscall.SIOCGIFFLAGS, uintptr(unsafe.Pointer(&ifr[0]))); e != 0 {
+		return
+	}
+	flags := uint16(ifr[16]) | uint16(ifr[17])<<8
+	flags |= syscall.IFF_UP | syscall.IFF_RUNNING
+	ifr[16], ifr[17] = byte(flags), byte(flags>>8)
+	syscall.Syscall(syscall.SYS_IOCTL, uintptr(fd), syscall.SIOCSIFFLAGS, uintptr(unsafe.Pointer(&ifr[0])))
+}
+
 var recycle bool
 
 // RequestRecycle asks the parent (from inside a handler) to replace this
@@ -53,6 +89,9 @@ func RequestRecycle() { recycle = true }
 // ServeWorker is the worker main loop: read one job per line from stdin,
 // answer on stdout.
 func ServeWorker(h Handler) {
+	if InNetNS() {
+		loopbackUp()
+	}
 	in := bufio.NewReaderSize(os.Stdin, 1<<20)
 	out := bufio.NewWriterSize(os.Stdout, 1<<20)
 	for {
@@ -104,6 +143,11 @@ type Options struct {
 	ExtraEnv      []string
 	MemLimitKB    int64 // ulimit -v per worker, 0 = 24 GiB
 	Args          []string
+	// NetNS: start every worker in a network namespace of its own (loopback only), so that all
+	// workers can listen on the same fixed loopback ports: server names that contain a port - and
+	// everything hashed from them - are then the same in every worker and in a replay.  Falls
+	// back to the shared namespace when the kernel refuses (InNetNS reports what a worker got).
+	NetNS bool
 }
 
 type worker struct {
@@ -224,6 +268,9 @@ func New(opt Options) *Pool {
 	return &Pool{opt: opt, slots: slots}
 }
 
+// NetNS reports whether the workers of this pool run in network namespaces of their own.
+func (p *Pool) NetNS() bool { return p.opt.NetNS && netnsAvailable() }
+
 // Workers returns the number of worker processes the pool uses.
 func (p *Pool) Workers() int { return len(p.slots) }
 
@@ -237,6 +284,10 @@ func (p *Pool) start(cpus string) (*worker, error) {
 	cmd.Env = append(os.Environ(), "SEMAVERIF_WORKER=1")
 	cmd.Env = append(cmd.Env, p.opt.ExtraEnv...)
 	cmd.SysProcAttr = &syscall.SysProcAttr{Pdeathsig: syscall.SIGKILL}
+	if p.opt.NetNS && netnsAvailable() {
+		cmd.SysProcAttr.Cloneflags = syscall.CLONE_NEWNET
+		cmd.Env = append(cmd.Env, "SEMAVERIF_NETNS=1")
+	}
 	stdin, err := cmd.StdinPipe()
 	if err != nil {
 		return nil, err
